@@ -679,7 +679,7 @@ def encode_trace(res, tid, sc):
             out.append(dict(e=k, n_expected=e["n_expected"], n_file=e["n_file"], limit_store=e["limit_store"],
                             mem_equal=e["mem_equal"], files_exist=e["files_exist"], npz_equal=e["npz_equal"],
                             labels_ok=e["labels_ok"], plotter_ok=e["plotter_ok"], csv_ok=e["csv_ok"],
-                            query_ok=e["query_ok"], replay_ok=e["replay_ok"]))
+                            query_ok=e["query_ok"], replay_ok=e["replay_ok"], memplot_ok=e.get("memplot_ok", True)))
         elif k in ("save_output", "ts_reset"):
             out.append(dict(e=k, mem=e["mem"], idx_ptr=e.get("idx_ptr", 0), append=e.get("append", False)))
     meta = dict(tid=tid, sid=sc.get("sid"), ntargets=len(res["targets"]), timers=timers, pflow=res["pflow"],
